@@ -91,6 +91,10 @@ func (r *registry) mkPay(kind, tok string) any {
 		return tokStruct{Tok: tok, N: 7}
 	case "nil":
 		return nil
+	case "result":
+		// a payload that is itself a flyt.Result (struct / plain nodes only: the
+		// framework must hand it on untouched)
+		return flyt.NewResult("T:" + tok)
 	default:
 		panic("bad payload kind " + kind)
 	}
@@ -101,8 +105,11 @@ func (r *registry) mkPay(kind, tok string) any {
 }
 
 func payDesc(kind, tok string) string {
-	if kind == "nil" {
+	switch kind {
+	case "nil":
 		return "nil"
+	case "result":
+		return "WR(" + tok + ")"
 	}
 	return tok
 }
@@ -298,6 +305,7 @@ type harness struct {
 	st       []*nodeState
 	reg      *registry
 	failSeen bool // an exec failure has been logged (read / written in the scheduler only)
+	runIdx   int
 }
 
 func newHarness(sc *Scn) *harness {
@@ -504,7 +512,7 @@ func (h *harness) exec(n *NodeSpec, arg any, anyStyle bool) (val any, errRes err
 			o = attemptOutcome(vs.Items[item].Exec, a)
 		}
 		tok = fmt.Sprintf("n%dv%di%de%d", n.ID, v, item, a)
-		need = min(len(vs.Items), max(n.config().Conc, 1))
+		need = min(len(vs.Items), max(n.configRun(h.runIdx).Conc, 1))
 	} else {
 		o = attemptOutcome(vs.Exec, a)
 		tok = fmt.Sprintf("n%dv%de%d", n.ID, v, a)
@@ -729,6 +737,54 @@ func (h *harness) fbFunc(n *NodeSpec) func(any, error) (any, error) {
 	return func(p any, err error) (any, error) { return h.fallback(n, p, err) }
 }
 
+func (h *harness) decoyCalled(n *NodeSpec, phase string) {
+	simrt.Emit(simrt.Event{Kind: "decoy_called", N: n.ID, S1: phase})
+}
+
+func hasDecoy(n *NodeSpec, phase byte) bool { return strings.IndexByte(n.Decoy, phase) >= 0 }
+
+// decoyOpts: the to-be-replaced functions in option form (other style than the real one).
+func (h *harness) decoyOpts(n *NodeSpec) []any {
+	var opts []any
+	if hasDecoy(n, 'p') {
+		if n.style(0) == 'R' {
+			opts = append(opts, flyt.WithPrepFuncAny(func(context.Context, *flyt.SharedStore) (any, error) { h.decoyCalled(n, "prep"); return nil, nil }))
+		} else {
+			opts = append(opts, flyt.WithPrepFunc(func(context.Context, *flyt.SharedStore) (flyt.Result, error) {
+				h.decoyCalled(n, "prep")
+				return flyt.Result{}, nil
+			}))
+		}
+	}
+	if hasDecoy(n, 'e') {
+		if n.style(1) == 'R' {
+			opts = append(opts, flyt.WithExecFuncAny(func(context.Context, any) (any, error) { h.decoyCalled(n, "exec"); return nil, nil }))
+		} else {
+			opts = append(opts, flyt.WithExecFunc(func(context.Context, flyt.Result) (flyt.Result, error) {
+				h.decoyCalled(n, "exec")
+				return flyt.Result{}, nil
+			}))
+		}
+	}
+	if hasDecoy(n, 'x') {
+		if n.style(2) == 'R' {
+			opts = append(opts, flyt.WithPostFuncAny(func(context.Context, *flyt.SharedStore, any, any) (flyt.Action, error) {
+				h.decoyCalled(n, "post")
+				return "", nil
+			}))
+		} else {
+			opts = append(opts, flyt.WithPostFunc(func(context.Context, *flyt.SharedStore, flyt.Result, flyt.Result) (flyt.Action, error) {
+				h.decoyCalled(n, "post")
+				return "", nil
+			}))
+		}
+	}
+	if hasDecoy(n, 'f') {
+		opts = append(opts, flyt.WithExecFallbackFunc(func(any, error) (any, error) { h.decoyCalled(n, "fallback"); return nil, nil }))
+	}
+	return opts
+}
+
 // buildFunc builds a function-style node through options, builder methods or both.
 func (h *harness) buildFunc(n *NodeSpec) flyt.Node {
 	var opts []any
@@ -748,6 +804,10 @@ func (h *harness) buildFunc(n *NodeSpec) flyt.Node {
 	}
 	postA := func(ctx context.Context, s *flyt.SharedStore, p, e any) (flyt.Action, error) {
 		return h.post(n, s, p, e, false)
+	}
+	decoyAsBuilder := n.DecoyForm == "builder" && n.FnForm == "builder"
+	if !decoyAsBuilder {
+		opts = append(opts, h.decoyOpts(n)...)
 	}
 	if n.FnForm != "builder" {
 		switch n.style(0) {
@@ -773,6 +833,44 @@ func (h *harness) buildFunc(n *NodeSpec) flyt.Node {
 		}
 	}
 	b := flyt.NewNode(opts...)
+	if decoyAsBuilder {
+		if hasDecoy(n, 'p') {
+			if n.style(0) == 'R' {
+				b = b.WithPrepFuncAny(func(context.Context, *flyt.SharedStore) (any, error) { h.decoyCalled(n, "prep"); return nil, nil })
+			} else {
+				b = b.WithPrepFunc(func(context.Context, *flyt.SharedStore) (flyt.Result, error) {
+					h.decoyCalled(n, "prep")
+					return flyt.Result{}, nil
+				})
+			}
+		}
+		if hasDecoy(n, 'e') {
+			if n.style(1) == 'R' {
+				b = b.WithExecFuncAny(func(context.Context, any) (any, error) { h.decoyCalled(n, "exec"); return nil, nil })
+			} else {
+				b = b.WithExecFunc(func(context.Context, flyt.Result) (flyt.Result, error) {
+					h.decoyCalled(n, "exec")
+					return flyt.Result{}, nil
+				})
+			}
+		}
+		if hasDecoy(n, 'x') {
+			if n.style(2) == 'R' {
+				b = b.WithPostFuncAny(func(context.Context, *flyt.SharedStore, any, any) (flyt.Action, error) {
+					h.decoyCalled(n, "post")
+					return "", nil
+				})
+			} else {
+				b = b.WithPostFunc(func(context.Context, *flyt.SharedStore, flyt.Result, flyt.Result) (flyt.Action, error) {
+					h.decoyCalled(n, "post")
+					return "", nil
+				})
+			}
+		}
+		if hasDecoy(n, 'f') {
+			b = b.WithExecFallbackFunc(func(any, error) (any, error) { h.decoyCalled(n, "fallback"); return nil, nil })
+		}
+	}
 	if n.FnForm == "builder" {
 		switch n.style(0) {
 		case 'R':
@@ -849,6 +947,21 @@ func (h *harness) buildBatch(n *NodeSpec) flyt.Node {
 	for _, o := range baseOpts(n, "opt") {
 		opts = append(opts, o)
 	}
+	batchDecoy := &NodeSpec{ID: n.ID, Styles: n.Styles}
+	if hasDecoy(n, 'e') {
+		batchDecoy.Decoy += "e"
+	}
+	if hasDecoy(n, 'f') && n.HasFb {
+		batchDecoy.Decoy += "f"
+	}
+	decoyAsBuilder := n.DecoyForm == "builder" && n.FnForm != "opt"
+	if !decoyAsBuilder || hasDecoy(batchDecoy, 'f') {
+		d := *batchDecoy
+		if decoyAsBuilder {
+			d.Decoy = strings.ReplaceAll(d.Decoy, "e", "")
+		}
+		opts = append(opts, h.decoyOpts(&d)...)
+	}
 	if n.FnForm == "opt" {
 		switch n.style(1) {
 		case 'R':
@@ -860,6 +973,18 @@ func (h *harness) buildBatch(n *NodeSpec) flyt.Node {
 	if n.HasFb { // the batch builder has no method for it: option form only
 		opts = append(opts, flyt.WithExecFallbackFunc(h.fbFunc(n)))
 	}
+	if n.OptPost {
+		switch n.style(2) {
+		case 'R':
+			opts = append(opts, flyt.WithPostFunc(func(ctx context.Context, s *flyt.SharedStore, p, e flyt.Result) (flyt.Action, error) {
+				return h.post(n, s, p, e, true)
+			}))
+		case 'A':
+			opts = append(opts, flyt.WithPostFuncAny(func(ctx context.Context, s *flyt.SharedStore, p, e any) (flyt.Action, error) {
+				return h.post(n, s, p, e, false)
+			}))
+		}
+	}
 	b := flyt.NewBatchNode(opts...)
 	b = b.WithPrepFunc(func(ctx context.Context, s *flyt.SharedStore) ([]flyt.Result, error) {
 		v, err := h.prep(n, s)
@@ -868,6 +993,16 @@ func (h *harness) buildBatch(n *NodeSpec) flyt.Node {
 		}
 		return v.([]flyt.Result), nil
 	})
+	if decoyAsBuilder && hasDecoy(batchDecoy, 'e') {
+		if n.style(1) == 'R' {
+			b = b.WithExecFuncAny(func(context.Context, any) (any, error) { h.decoyCalled(n, "exec"); return nil, nil })
+		} else {
+			b = b.WithExecFunc(func(context.Context, flyt.Result) (flyt.Result, error) {
+				h.decoyCalled(n, "exec")
+				return flyt.Result{}, nil
+			})
+		}
+	}
 	if n.FnForm != "opt" {
 		switch n.style(1) {
 		case 'R':
@@ -876,7 +1011,7 @@ func (h *harness) buildBatch(n *NodeSpec) flyt.Node {
 			b = b.WithExecFuncAny(h.execFuncA(n))
 		}
 	}
-	if n.style(2) != '-' {
+	if n.style(2) != '-' && !n.OptPost {
 		b = b.WithPostFunc(h.batchPost(n))
 	}
 	for _, s := range n.Settings {
@@ -947,6 +1082,83 @@ type getters interface {
 	GetBatchErrorHandling() string
 }
 
+// reconfigure applies every node's Reconf settings to the already built (and
+// already used) node: option functions on the embedded BaseNode, or the
+// builder's chained methods.
+func (h *harness) reconfigure() {
+	any := false
+	for i, n := range h.sc.Nodes {
+		if len(n.Reconf) == 0 {
+			continue
+		}
+		any = true
+		var base *flyt.BaseNode
+		nb, _ := h.nodes[i].(*flyt.NodeBuilder)
+		bb, _ := h.nodes[i].(*flyt.BatchNodeBuilder)
+		switch x := h.nodes[i].(type) {
+		case *flyt.NodeBuilder:
+			base = x.BaseNode
+		case *flyt.BatchNodeBuilder:
+			base = x.BaseNode
+		case *baseNode:
+			base = x.BaseNode
+		case *baseFbNode:
+			base = x.BaseNode
+		default:
+			panic("reconf on a node kind without configuration")
+		}
+		for _, s := range n.Reconf {
+			d := time.Duration(s.Val) * time.Millisecond
+			switch {
+			case s.Form == "builder" && nb != nil:
+				switch s.Param {
+				case "retries":
+					nb.WithMaxRetries(s.Val)
+				case "wait":
+					nb.WithWait(d)
+				case "conc":
+					nb.WithBatchConcurrency(s.Val)
+				case "stop":
+					nb.WithBatchErrorHandling(s.Val == 0)
+				}
+			case s.Form == "builder" && bb != nil:
+				switch s.Param {
+				case "retries":
+					bb.WithMaxRetries(s.Val)
+				case "wait":
+					bb.WithWait(d)
+				case "conc":
+					bb.WithBatchConcurrency(s.Val)
+				case "stop":
+					bb.WithBatchErrorHandling(s.Val == 0)
+				}
+			default:
+				switch s.Param {
+				case "retries":
+					flyt.WithMaxRetries(s.Val)(base)
+				case "wait":
+					flyt.WithWait(d)(base)
+				case "conc":
+					flyt.WithBatchConcurrency(s.Val)(base)
+				case "stop":
+					flyt.WithBatchErrorHandling(s.Val == 0)(base)
+				}
+			}
+		}
+	}
+	if any {
+		h.emitCfg(1)
+	}
+}
+
+func (h *harness) emitCfg(phase int) {
+	for i, n := range h.nodes {
+		if g, ok := n.(getters); ok && h.sc.Nodes[i].Kind != "flow" {
+			simrt.Emit(simrt.Event{Kind: "cfg", N: i, V: phase, S1: fmt.Sprintf("retries=%d wait=%s conc=%d errh=%s", g.GetMaxRetries(), g.GetWait(), g.GetBatchConcurrency(), g.GetBatchErrorHandling())})
+		}
+	}
+}
+
 // runMain is the body of the main simulated task.
 func (h *harness) runMain() {
 	sc := h.sc
@@ -963,11 +1175,7 @@ func (h *harness) runMain() {
 	defer h.cancel()
 	h.build()
 	if sc.Prop == "C19" {
-		for i, n := range h.nodes {
-			if g, ok := n.(getters); ok && sc.Nodes[i].Kind != "flow" {
-				simrt.Emit(simrt.Event{Kind: "cfg", N: i, S1: fmt.Sprintf("retries=%d wait=%s conc=%d errh=%s", g.GetMaxRetries(), g.GetWait(), g.GetBatchConcurrency(), g.GetBatchErrorHandling())})
-			}
-		}
+		h.emitCfg(0)
 	}
 	switch sc.Ctx.Kind {
 	case "precancel":
@@ -991,6 +1199,10 @@ func (h *harness) runMain() {
 		runs = 1
 	}
 	for r := 0; r < runs; r++ {
+		h.runIdx = r
+		if r == 1 {
+			h.reconfigure()
+		}
 		simrt.Emit(simrt.Event{Kind: "run_start", N: r})
 		var action flyt.Action
 		var err error
